@@ -112,9 +112,17 @@ def rowsFor (ci : ClosestIn) (hitsFor : List Nat → List Hit) (pick1 : List Hit
     ("query,closest", ci.qs.map fun (qn, q) =>
       { pre := [qn, joinWith ";" ((pickN (hitsFor q)).map (·.name))], dist := none, post := [] })
 
+/-- C07 is about the distance of every pair, not about the order of the rows: sort the data lines -/
+def sortDataLines (out : String) : String :=
+  match out.splitOn "\n" with
+  | h :: rest =>
+    let body := rest.filter (!·.isEmpty)
+    joinWith "\n" (h :: sortStable (fun a b => decide (a < b)) body) ++ "\n"
+  | [] => out
+
 def runC06 (c : Case) : Verdict :=
   let ci := closestIn c
-  let go := c.get "go"
+  let go := if c.prop == "C07" then sortDataLines (c.get "go") else c.get "go"
   let mts := modelTargets ci.ts
   let (mh, mrows) := rowsFor ci (fun q => hitsOf ci.measure (q.map (enc false)) mts) findClosest
       (findClosestN (effK ci) ci.maxd)
@@ -122,8 +130,10 @@ def runC06 (c : Case) : Verdict :=
   let (sh, srows) := rowsFor ci (fun q => specHits ci.measure q ci.ts) (fun hs => (selectK 1 hs).head?)
       (specClosestN (effK ci) ci.maxd)
       (fun q i => specSnpStrings 0 q ((ci.ts.getD i default).2))
-  { agree := rowsMatch mh mrows go
-    spec := if rowsMatch sh srows go then "ok" else "fail:output-differs-from-spec"
-    model := renderRows mh mrows }
+  let byText (rows : List ERow) : List ERow :=
+    if c.prop == "C07" then sortStable (fun a b => decide (joinWith "," a.pre < joinWith "," b.pre)) rows else rows
+  { agree := rowsMatch mh (byText mrows) go
+    spec := if rowsMatch sh (byText srows) go then "ok" else "fail:output-differs-from-spec"
+    model := renderRows mh (byText mrows) }
 
 end Gofasta.Driver
